@@ -50,7 +50,7 @@ func (c10) Runs(t Tier) int {
 }
 func (c10) RecordWidths() map[string]int { return nil }
 func (c10) RequiredProbes() []string {
-	return []string{"file-fragmentation", "rabin-chunker", "dir-permutation", "sharded-permutation", "quick-builder", "distinct-commit-orders>=2", "nested-shards", "straddles-shard-threshold", "multi-level-file"}
+	return []string{"default-chunker", "default-chunker-at-block-boundary", "mixed-link-lengths", "non-murmur-hasher", "file-fragmentation", "rabin-chunker", "dir-permutation", "sharded-permutation", "quick-builder", "distinct-commit-orders>=2", "nested-shards", "straddles-shard-threshold", "multi-level-file"}
 }
 
 type c10Scenario struct {
@@ -129,8 +129,16 @@ func (c10) Run(ts *tape.Set, tier Tier) *Result {
 	switch kind {
 	case 0:
 		spec := gen.DrawFileSpec(shape, gen.FileOpts{MaxSize: 8 << 10, OnlyBuilder: true})
-		content := gen.Content(spec)
 		seed := shape.Raw()
+		if seed%16 == 0 && strings.HasPrefix(spec.Chunker, "size-262144") || spec.Chunker == "" || spec.Chunker == "default" {
+			if seed%3 == 0 {
+				// sizes at and around the default block size
+				spec.Size = []int{262143, 262144, 262145, 524288, 524289}[(seed>>8)%5]
+				res.probe("default-chunker-at-block-boundary")
+			}
+			res.probe("default-chunker")
+		}
+		content := gen.Content(spec)
 		sc.Kind, sc.Spec = "file", spec.String()
 		res.probe("file-fragmentation")
 		if strings.HasPrefix(spec.Chunker, "rabin") {
@@ -175,27 +183,50 @@ func (c10) Run(ts *tape.Set, tier Tier) *Result {
 				}
 				names[i] = names[i] + "-" + strings.Repeat("p", pad)
 			}
-			// trim or extend the last names so that the estimate is within +-40 of the threshold
-			est := 0
-			for _, n := range names {
-				est += len(n) + 36
-			}
-			delta := int(pseed%81) - 40 // -40..40
-			adj := (target + delta) - est
-			if adj > 0 {
-				names[0] += strings.Repeat("q", adj)
-			} else if -adj < len(names[0])-4 {
-				names[0] = names[0][:len(names[0])+adj]
-			}
 			res.probe("straddles-shard-threshold")
 		}
 		ents := map[string]cid.Cid{}
 		sizes := map[string]int64{}
 		pr := tape.NewSplitMix(pseed)
+		mixed := pseed%3 != 0 // links of different byte lengths in one directory
 		for _, n := range names {
-			ents[n] = gen.EntryTarget(scratch, n)
+			kind := 0
+			if mixed {
+				if v := pr.Next() % 16; v < 4 {
+					kind = int(v)
+				}
+			}
+			ents[n] = gen.EntryCid(n, kind)
 			sizes[n] = int64(pr.Next() % 100000)
 		}
+		if mixed {
+			res.probe("mixed-link-lengths")
+		}
+		if straddle && kind != 2 {
+			// land the size estimate (sum of name and link lengths) within +-40
+			// of the auto-shard threshold
+			est := 0
+			for _, n := range names {
+				est += len(n) + ents[n].ByteLen()
+			}
+			adj := 262144 + int(pseed%81) - 40 - est
+			old := names[0]
+			nn := old
+			if adj > 0 {
+				nn = old + strings.Repeat("q", adj)
+			} else if -adj < len(old)-4 {
+				nn = old[:len(old)+adj]
+			}
+			if nn != old {
+				if _, dup := ents[nn]; !dup {
+					ents[nn], sizes[nn] = ents[old], sizes[old]
+					delete(ents, old)
+					delete(sizes, old)
+					names[0] = nn
+				}
+			}
+		}
+		_ = scratch
 		sc.Spec = dspec.String()
 		mk := func(order []int) []dagpb.PBLink {
 			ns := make([]string, len(names))
@@ -223,11 +254,20 @@ func (c10) Run(ts *tape.Set, tier Tier) *Result {
 		case 2:
 			sc.Kind = "BuildUnixFSShardedDirectory"
 			res.probe("sharded-permutation")
+			// the builder accepts any registered hash function for bucket
+			// selection; murmur3 is what readers understand, the others are
+			// part of its configuration space all the same
+			hasher := uint64(mh.MURMUR3X64_64)
+			if v := pseed >> 20 % 5; v >= 3 {
+				hasher = []uint64{mh.SHA2_256, mh.SHA2_512}[v-3]
+				res.probe("non-murmur-hasher")
+				sc.Kind += fmt.Sprintf(" hasher=%#x", hasher)
+			}
 			for i := 0; i < nPerm; i++ {
 				lnks := mk(perm(len(names), pr))
 				for rep := 0; rep < 3; rep++ {
 					if !record(fmt.Sprintf("perm%d/rep%d", i, rep), 174, func(ls *ipld.LinkSystem) (ipld.Link, uint64, error) {
-						return builder.BuildUnixFSShardedDirectory(dspec.Fanout, mh.MURMUR3X64_64, lnks, ls)
+						return builder.BuildUnixFSShardedDirectory(dspec.Fanout, hasher, lnks, ls)
 					}) {
 						return res
 					}
